@@ -1054,7 +1054,17 @@ pub fn explore(programs: &[Program], cfg: &ExploreCfg) -> ExploreOut {
                         }
                     };
                     let prog = &programs[w.program as usize];
-                    let ex = execute(prog, &w.prefix, &cfg.exec);
+                    let ex = match std::panic::catch_unwind(std::panic::AssertUnwindSafe(|| {
+                        execute(prog, &w.prefix, &cfg.exec)
+                    })) {
+                        Ok(e) => e,
+                        Err(_) => {
+                            // a panic outside the guarded calls: counted as a diverged execution (machinery error)
+                            acc.diverged += 1;
+                            sched::install_hook();
+                            continue;
+                        }
+                    };
                     acc.execs += 1;
                     if w.prefix.is_empty() {
                         // determinism check: the default schedule twice, identical observations
@@ -1079,7 +1089,18 @@ pub fn explore(programs: &[Program], cfg: &ExploreCfg) -> ExploreOut {
                     acc.max_preemptions = acc.max_preemptions.max(ex.out.preemptions);
                     acc.end_states.insert(ex.end_state_hash());
                     acc.outcomes.insert(ex.outcome_hash());
-                    for fd in evaluate(prog, &ex, cfg.want_c14) {
+                    let findings = std::panic::catch_unwind(std::panic::AssertUnwindSafe(|| {
+                        evaluate(prog, &ex, cfg.want_c14)
+                    }))
+                    .unwrap_or_else(|_| {
+                        vec![Finding {
+                            prop: "C03",
+                            sig: "oracle_panic".into(),
+                            known_candidate: false,
+                            msg: "the oracle panicked while evaluating this execution (inconsistent observations)".into(),
+                        }]
+                    });
+                    for fd in findings {
                         let key = (fd.prop.to_string(), fd.sig.clone());
                         let pre: Vec<u8> = ex.out.points.iter().map(|p| p.chosen).collect();
                         let e = acc.found.entry(key).or_insert(Found {
